@@ -12,6 +12,25 @@ use std::rc::Rc;
 use std::sync::Arc;
 use std::time::Duration;
 
+/// An input that cannot report its remaining length (exists in every feature configuration).
+struct Unk<'a> {
+	data: &'a [u8],
+	pos: usize,
+}
+impl parity_scale_codec::Input for Unk<'_> {
+	fn remaining_len(&mut self) -> Result<Option<usize>, parity_scale_codec::Error> {
+		Ok(None)
+	}
+	fn read(&mut self, into: &mut [u8]) -> Result<(), parity_scale_codec::Error> {
+		if into.len() > self.data.len() - self.pos {
+			return Err("eof".into());
+		}
+		into.copy_from_slice(&self.data[self.pos..self.pos + into.len()]);
+		self.pos += into.len();
+		Ok(())
+	}
+}
+
 pub struct Probe2<A, B>(PhantomData<(A, B)>);
 pub trait Fallback2 {
 	const LIKE: bool = false;
@@ -139,7 +158,7 @@ fn like_values<O: Modeled + Encode + 'static, A: Encode, B: Modeled + Encode + D
 		if let Some((b, _)) = &dv {
 			let want = val_string(b, true);
 			let r = std::panic::catch_unwind(std::panic::AssertUnwindSafe(|| {
-				let mut io = parity_scale_codec::IoReader(std::io::Cursor::new(&bytes[..]));
+				let mut io = Unk { data: &bytes[..], pos: 0 };
 				let a = B::decode(&mut io).ok().map(|x| val_string(&x, true));
 				let l = {
 					use parity_scale_codec::DecodeLimit;
@@ -240,8 +259,16 @@ pub fn like_stream(ctx: &mut Ctx) {
 		s.push_str("𝄞€é tail");
 		let bytes = s.as_str().encode();
 		let from_slice = String::decode(&mut &bytes[..]).ok();
-		let from_reader = String::decode(&mut parity_scale_codec::IoReader(std::io::Cursor::new(&bytes[..]))).ok();
-		let as_tuple = <(String, u8)>::decode(&mut parity_scale_codec::IoReader(std::io::Cursor::new(&(s.as_str(), 7u8).encode()[..]))).ok();
+		let from_reader = String::decode(&mut Unk { data: &bytes[..], pos: 0 }).ok();
+		let tuple_bytes = (s.as_str(), 7u8).encode();
+		let as_tuple = <(String, u8)>::decode(&mut Unk { data: &tuple_bytes[..], pos: 0 }).ok();
+		#[cfg(feature = "codec-std")]
+		{
+			let io = String::decode(&mut parity_scale_codec::IoReader(std::io::Cursor::new(&bytes[..]))).ok();
+			if io.as_deref() != Some(&s[..]) {
+				ctx.oracle_fail("C16", format!("&str ({} bytes, multi-byte characters across 16 KiB offsets) as String from IoReader: ok={}", s.len(), io.is_some()));
+			}
+		}
 		if from_slice.as_deref() != Some(&s[..]) || from_reader.as_deref() != Some(&s[..]) || as_tuple.as_ref().map(|t| (&t.0[..], t.1)) != Some((&s[..], 7)) {
 			ctx.oracle_fail("C16", format!("&str ({} bytes, multi-byte characters across 16 KiB offsets) as String: from a slice ok={} from a reader ok={} as a tuple field from a reader ok={}", s.len(), from_slice.is_some(), from_reader.is_some(), as_tuple.is_some()));
 		}
